@@ -96,6 +96,9 @@ def skeletons(pattern, max_rep=2):
     return out
 
 
+SMALL_CLASS = 6
+
+
 def strings(pattern, max_rep=1, swapcase=True):
     """base string of every skeleton (first member of each class); its other-letter-case twin; and for every character
     class node of the pattern and every member of the class one string with that member (first skeleton using the node)"""
@@ -116,8 +119,11 @@ def strings(pattern, max_rep=1, swapcase=True):
         for i, c in enumerate(sk):
             if c.node is None:
                 continue
+            small = len(c) <= SMALL_CLASS and not all(x.isdigit() for x in c)
             for ch in c[1:]:
-                if (c.node, ch) in covered:
+                # members of a SMALL non-digit class (unit letters, x/X, k/K ...) are tried in every skeleton that uses the class:
+                # their meaning interacts with the structure around them ('4x1.5K' vs '4x100K'); members of large classes once
+                if not small and (c.node, ch) in covered:
                     continue
                 covered.add((c.node, ch))
                 t = list(base)
